@@ -556,3 +556,18 @@ Proof.
   { apply str_eqb_single. destruct r; [left; congruence|right; discriminate]. }
   reflexivity.
 Qed.
+
+(* ---------- round trips ---------- *)
+Lemma roundtrip_int n : dom n -> FractionDigits n = 0 ->
+  exists s, String_ n = Ok s /\ ParseInt s = Ok n.
+Proof.
+  destruct n as [v fd neg]. unfold dom. cbn [Value FractionDigits]. intros [[Hv0 Hv1] _] Hf. subst fd.
+  unfold String_, IsDecimal. cbn [FractionDigits Value Negative Z.eqb negb obind].
+  destruct (FormatUint_spec v ltac:(lia)) as (Hd & Hc & Hne & Hh).
+  exists (sign_chars (if neg then Some true else None) ++ FormatUint v).
+  split; [destruct neg; reflexivity|].
+  rewrite ParseInt_sign_digits; [| exact Hd | exact Hne |].
+  - rewrite Hc. unfold MaxUint64. destruct (Z.leb_spec v (two64 - 1)); [|lia].
+    destruct neg; reflexivity.
+  - destruct (Z.eq_dec v 0) as [->|Nz]; [left; reflexivity|right; apply Hh; lia].
+Qed.
